@@ -466,6 +466,26 @@ def probes(thorough=False):
         [[0], [1], [2], [10], [81], [82], [1000], [-5]])
     add("while", "compound-condition", PROG(FN("f", ["a", "b"], [ASG("k", L(0)), WHILE(AND(CMPC(a, "<", b), OR(CMPC(V("k"), "<", L(5)), CMPC(a, "<", L(0)))), [AUG("a", "+", L(1)), AUG("k", "+", L(1))]), RET(B("+", B("*", V("k"), L(1000)), a))])),
         [[0, 3], [0, 9], [-4, 9], [5, 5], [9, 0], [-9, -2]])
+    # continue must re-evaluate the *whole* compound condition (the first operand decides after a continue)
+    add("while", "and-continue",
+        PROG(FN("f", ["n", "lim"], [ASG("s", L(0)), ASG("k", L(0)),
+                                    WHILE(AND(CMPC(V("k"), "<", n), CMPC(s, "<", V("lim"))),
+                                          [AUG("k", "+", L(1)), IF(CMPC(B("-", V("k"), B("*", B("//", V("k"), L(2)), L(2))), "==", L(0)), [CONTINUE]),
+                                           AUG("s", "+", V("k"))]),
+                                    RET(B("+", B("*", s, L(1000)), V("k")))])),
+        [[2, 5], [4, 100], [6, 3], [1, 1], [0, 0], [7, 9]])
+    add("while", "or-continue",
+        PROG(FN("f", ["a", "b"], [ASG("c", L(0)),
+                                  WHILE(OR(CMPC(V("a"), ">", L(0)), CMPC(V("b"), ">", L(0))),
+                                        [AUG("c", "+", L(1)), AUG("a", "-", L(1)), IF(CMPC(V("c"), ">", L(40)), [BREAK]),
+                                         IF(CMPC(a, ">=", L(0)), [CONTINUE]), AUG("b", "-", L(2))]),
+                                  RET(B("+", B("*", V("c"), L(100)), b))])),
+        [[3, 0], [0, 3], [2, 5], [0, 0], [5, 1]])
+    add("while", "and-or-continue-last-true",
+        PROG(FN("f", ["n"], [ASG("k", L(0)), ASG("s", L(0)),
+                             WHILE(AND(CMPC(V("k"), "<", n), OR(CMPC(s, "<", L(1000)), CMPC(n, ">", L(0)))),
+                                   [AUG("k", "+", L(1)), IF(CMPC(V("k"), ">", L(50)), [BREAK]), IF(CMPC(V("k"), "<", L(100)), [CONTINUE]), AUG("s", "+", L(1))]),
+                             RET(B("+", B("*", V("k"), L(10)), s))])), SMALL1)
     # ---- for over range, simple bodies
     add("for", "range1-sum", PROG(FN("f", ["n"], [ASG("s", L(0)), FOR("i", [n], [AUG("s", "+", i)]), RET(s)])), SMALL1 + [[-100], [MIN64]])
     add("for", "range2-sum", PROG(FN("f", ["a", "b"], [ASG("s", L(0)), FOR("i", [a, b], [AUG("s", "+", B("*", i, i))]), RET(s)])),
